@@ -319,7 +319,8 @@ def run(prop_id, tier='quick', seed=1, replay=None):
     if fz and os.environ.get('PKV_NO_FUZZ') != '1':
         from . import fuzz as _fuzz
         fstats, fviols, fuzz_info = _fuzz.campaign(
-            prop_id, fz.get('procs', NSHARDS), fz['runs'], seed, fz['wall'],
+            prop_id, min(fz.get('procs', NSHARDS), NSHARDS), fz['runs'], seed,
+            fz['wall'],
             tier, fz.get('pool', 192))
         execs = 0
         for fs in fstats:
